@@ -16,7 +16,7 @@
    harness; either way they are only a certificate. *)
 From Coq Require Import ZArith QArith List Bool Lia.
 From VL Require Import Prelude.PyDict Model.Divisor Model.HighestAverages Model.Biprop
-     Proofs.Dict_proofs Proofs.Divisor_proofs Proofs.Biprop_proofs Proofs.Biprop_steps.
+     Proofs.Dict_proofs Proofs.Divisor_proofs Proofs.Biprop_proofs Proofs.Biprop_steps Proofs.BipropRow_proofs.
 Import ListNotations.
 Open Scope Z_scope.
 
@@ -118,19 +118,23 @@ Theorem C07_row_divisor_apportionment : forall d ds ps votes dseats pseats res r
     (inject_Z (mget votes i j) * gamma j / d (mget res i j)
      <= inject_Z (mget votes i j') * gamma j' / d (mget res i j' - 1)%Z)%Q.
 Proof. intros d ds ps votes dseats pseats res rho gamma [Hp _]. apply spec_row_minmax. exact Hp. Qed.
-(* full statement, not proved: when no two of these quotients are equal, the HighestAverages MODEL run
-   on the weighted votes of the district returns exactly the row *)
-Definition C07_row_is_highest_averages_full_statement : Prop :=
-  forall d ds ps votes dseats pseats res rho gamma, divisor_strict d -> divisor_ok d ->
+(* when no two of these quotients are equal, the HighestAverages MODEL (C01) run on the district's votes weighted by
+   the party multipliers returns exactly the row, without a tie.  Parties without votes in the district are left out
+   of the run (they hold no seat on either side), and the district holds at least one seat (with 0 seats the
+   HighestAverages code raises on its empty eligible list). Rests on the uniqueness theorem C01_unique. *)
+Theorem C07_row_is_highest_averages : forall d ds ps votes dseats pseats res rho gamma, divisor_strict d -> divisor_ok d ->
   (forall i j, 0 <= mget votes i j) -> NoDup ps ->
   spec_with d ds ps votes dseats pseats res rho gamma ->
-  forall i, In i ds ->
+  forall i, In i ds -> 0 < dget_or dseats i 0 ->
   (forall j j', In j ps -> In j' ps -> 0 < mget res i j' ->
      (inject_Z (mget votes i j) * gamma j / d (mget res i j)
       < inject_Z (mget votes i j') * gamma j' / d (mget res i j' - 1)%Z)%Q) ->
-  exists gains, HighestAverages.evaluate d (map (fun j => (j, (inject_Z (mget votes i j) * gamma j)%Q)) ps)
-                                         (dget_or dseats i 0) [] [] = HA_ok gains None /\
+  exists gains, HighestAverages.evaluate d (wrow votes gamma ps i) (dget_or dseats i 0) [] [] = HA_ok gains None /\
                 forall j, In j ps -> dget_or gains j 0 = mget res i j.
+Proof.
+  intros d ds ps votes dseats pseats res rho gamma Hs Hok Hv Hps Hspec i Hi Hseats Hmm.
+  exact (row_is_highest_averages d ds ps votes dseats pseats res rho gamma Hok Hs Hv Hps Hspec i Hi Hseats Hmm).
+Qed.
 
 (* the index lists the checker sums over (keys of the vote matrix in first-occurrence order) are
    duplicate-free and contain every cell with votes; hence under the statement no seat lies outside
@@ -181,5 +185,6 @@ Print Assumptions C07_feasible_ref_sound.
 Print Assumptions C07_cut_sound.
 Print Assumptions C07_matrix_ok_reflect.
 Print Assumptions C07_row_divisor_apportionment.
+Print Assumptions C07_row_is_highest_averages.
 Print Assumptions C07_index_covers_support.
 Print Assumptions C07_no_seat_outside.
